@@ -71,9 +71,16 @@ claim('C18', 'proof', 'Coq theorems (expression building denotes the expression;
       'C18_lambda, _build, _synonyms, _same_function_same_node, _missing_variable, _bad_syntax, _never_ok_when_ill_formed, _print_parse, _roundtrip (OBDD(str(o.root), o.ordering) is the identical root), _old_printer_refuted. '
       'Tie: expression / lambda / keyword forms / str(root) / str(o) round trips compared pairwise and with the model, printed token list vs model, malformed stream incl. the statement-shaped corpus (fix F11).',
       'Python\'s ast module is trusted to produce the AST shapes of bexp.')
-for p, why in [
-    
-    ('C07', 'check being assembled'), 
-    
-    ('C19', 'check being assembled')]:
-    na(p, 'not claimed yet: ' + why + '; see DESIGN.md section 6 for the planned theorem and correspondence')
+claim('C07', 'proof', 'Coq theorems on a heap model (mutable label cells; frame + refinement to the pure model by lock-step induction; induction over call histories) + history-level differential test with deep snapshots',
+      'C07_call (frame and refinement), _caller_unchanged, _others_unchanged, _depends_on_arguments_only, _history (any sequence of the six entry points over any pool: every result is the pure model on the initial heap and all structures are unchanged), '
+      'and non-vacuity: _noclone_refuted, _shallow_clone_refuted, _noclone_history_refuted. The heap model is tied to the pure models by theorem; the pure models to the code by the check: random histories of modelcheck calls '
+      '(3 logics x object / cast object / text x F in {None, [], [...]}) over a pool of structures and formulas, snapshots of every structure (contents and identity of every label/successor set) and formula object after every step, '
+      'every result compared with the model for that call in isolation; history dependence is shrunk to a minimal prelude.',
+      'The heap model (Model/Heap.v) is a transcription of the clone-then-label discipline, not generated from the source.')
+claim('C19', 'proof', 'Coq theorems (totality / duplicate-freeness / subset for all six entry points; independence of later calls on the heap model) + monitored execution on heterogeneous Python values',
+      'C19_ctl, _ltl, _ctls, _ctl_fair, _ltl_fair, _ctls_fair (Ok, NoDup, subset of the states, for every F), _later_calls_unaffected. PARTIAL by nature: state/label value types, the set type and identity of the returned object are runtime facts: '
+      'the check queries structures with str / tuple / negative / frozenset / mixed-type states, labels that are non-strings or look like operators, fresh names or fair labels, absent atoms, deep formulas; the result must be a fresh set of states, '
+      'and after the caller mutates it a repeated call must equal the model.',
+      'Exactness is asserted on identifier atoms only (known findings KF-print-a, KF-C03-a); exotic atom names get the weaker contract.')
+for p, why in []:
+    na(p, why)
